@@ -1,14 +1,21 @@
 #!/usr/bin/env python3
-import os, sys
+"""setup: build what the registered checks need (their Props/*.vo cones and harness bins)."""
+import os, sys, json, glob
 ROOT = os.path.dirname(os.path.dirname(os.path.abspath(__file__)))
 sys.path.insert(0, os.path.join(ROOT, 'lib')); sys.path.insert(0, os.path.join(ROOT, 'props')); sys.path.insert(0, os.path.join(ROOT, 'translator'))
 from vlib import *
 import gen_all
-errs = gen_all.generate_all()
-for e in errs: log('translator:', e)
-ok, out = coq_make([], timeout=3000)
+for e in gen_all.generate_all(): log('translator:', e)
+targets = []; bins = set(); feats = {}
+for f in sorted(glob.glob(os.path.join(ROOT, 'manifest.d', 'C*.json'))):
+    c = json.load(open(f))
+    targets.append('Props/%s.vo' % c['property_id'])
+    for b in c.get('_bins', []): feats.setdefault(tuple(c.get('_features', [])), set()).add(b)
+ok, out = coq_make(targets, timeout=3000)
 log(out[-3000:])
-if not ok: sys.exit(1)
-ok, out, _ = cargo_build()
-log(out[-3000:])
-sys.exit(0 if ok else 1)
+rc = 0 if ok else 1
+for fs, bs in feats.items():
+    ok, out, _ = cargo_build(sorted(bs), list(fs) or None)
+    log(out[-2000:])
+    if not ok: rc = 1
+sys.exit(rc)
